@@ -34,4 +34,5 @@ def main():
         subprocess.check_call(["git", "-C", "/repo", "checkout", "--", "."])
         lib.build_harness()
 
-main()
+if __name__ == '__main__':
+    main()
